@@ -152,8 +152,7 @@ func (c *Ctx) classifyLoop(fn *ssa.Function, l *natLoop) string {
 					return "lock-free retry loop (compare-and-swap)"
 				}
 				if strings.HasSuffix(name, ".ReadFromContext") || strings.HasSuffix(name, ".ReadFrom") || strings.HasSuffix(name, ".Accept") ||
-					strings.HasSuffix(name, "(*sync.Cond).Wait") || strings.HasSuffix(name, ".readAndBuffer") || strings.HasSuffix(name, ".readAndProcessDatagram") ||
-					strings.HasSuffix(name, ".readAndBufferNoFSM") {
+					strings.HasSuffix(name, "(*sync.Cond).Wait") || blocksInRead(x.Call.StaticCallee(), 0) {
 					return "service loop: blocks in a read"
 				}
 			}
@@ -250,10 +249,37 @@ func (c *Ctx) classifyLoop(fn *ssa.Function, l *natLoop) string {
 			}
 			return "counter strictly decreases towards a loop-invariant bound"
 		}
+		// "continue while counter <= bound" on an unsigned counter ends only if the bound is below
+		// the type's maximum: at the maximum the increment wraps to zero and the test holds for ever
+		// (a bound taken from serialised or received bytes can be exactly that)
+		wrapSafe := func(counter, bound ssa.Value) bool {
+			bt, ok := counter.Type().Underlying().(*types.Basic)
+			if !ok || bt.Info()&types.IsUnsigned == 0 {
+				return true
+			}
+			if k, isK := bound.(*ssa.Const); isK && k.Value != nil {
+				return true // a constant below the maximum is what the compiler would accept anyway
+			}
+			// widened from a narrower unsigned type, or a length
+			switch x := bound.(type) {
+			case *ssa.Convert:
+				if st, ok := x.X.Type().Underlying().(*types.Basic); ok && st.Info()&types.IsInteger != 0 {
+					if sizeOfBasic(st) < sizeOfBasic(bt) {
+						return true
+					}
+				}
+				if cl, ok := x.X.(*ssa.Call); ok && calleeName(&cl.Call) == "builtin:len" {
+					return true
+				}
+			}
+			return false
+		}
 		switch op {
 		case token.LSS, token.LEQ:
-			if why := try(bo.X, bo.Y, true); why != "" {
-				return why
+			if op == token.LSS || wrapSafe(stripConv(bo.X), bo.Y) {
+				if why := try(bo.X, bo.Y, true); why != "" {
+					return why
+				}
 			}
 			if why := try(bo.Y, bo.X, false); why != "" {
 				return why
@@ -617,4 +643,58 @@ func appendGrowth2(l *natLoop) string {
 		}
 	}
 	return ""
+}
+
+func sizeOfBasic(b *types.Basic) int {
+	switch b.Kind() {
+	case types.Int8, types.Uint8:
+		return 1
+	case types.Int16, types.Uint16:
+		return 2
+	case types.Int32, types.Uint32:
+		return 4
+	}
+	return 8
+}
+
+var blocksInReadCache = map[*ssa.Function]bool{}
+
+// blocksInRead: the module function reads a datagram from the transport on every path that
+// returns without an error... approximated structurally as: it, or a function it calls (three
+// levels), calls ReadFromContext / ReadFrom / Accept of the transport, outside any branch, i.e. in
+// a block that dominates all its successful returns.
+func blocksInRead(fn *ssa.Function, d int) bool {
+	if fn == nil || !inModule(fn) || len(fn.Blocks) == 0 || d > 3 {
+		return false
+	}
+	if v, ok := blocksInReadCache[fn]; ok {
+		return v
+	}
+	blocksInReadCache[fn] = false
+	succ := possibleSuccessReturns(fn)
+	res := false
+	for _, b := range fn.Blocks {
+		for _, in := range b.Instrs {
+			cl, ok := in.(*ssa.Call)
+			if !ok {
+				continue
+			}
+			name := calleeName(&cl.Call)
+			hit := strings.HasSuffix(name, ".ReadFromContext") || strings.HasSuffix(name, ".ReadFrom") || strings.HasSuffix(name, ".Accept") || blocksInRead(cl.Call.StaticCallee(), d+1)
+			if !hit {
+				continue
+			}
+			all := true
+			for _, ri := range succ {
+				if !instrDominates(cl, ri) {
+					all = false
+				}
+			}
+			if all {
+				res = true
+			}
+		}
+	}
+	blocksInReadCache[fn] = res
+	return res
 }
